@@ -1,6 +1,6 @@
 """C02 a signature verifies only for the document hash and level it was issued for."""
-import random
-from vlib import core, kexec, pool, refksi as R, gen
+import os, random
+from vlib import core, kexec, pool, net, refksi as R, gen
 
 LEVEL = 'exploration'
 RES = {0: 'OK', 1: 'NA', 2: 'FAIL'}
@@ -151,6 +151,90 @@ def worker(job, r):
     pool.check_exit(None, r, ex)
 
 
+def wrappers_part(job, r):
+    """the convenience entry points (KSI_verifyDataHash, KSI_Signature_verifyDocument, verifyWithPolicy without a context) run the general
+    policy with what the CONTEXT provides. Here the context can download an authentic publications file that holds the signature's
+    publication, so that they answer KSI_OK for the right document - and must answer KSI_VERIFICATION_FAILURE for every other one,
+    the empty document included."""
+    from checks import c04
+    from checks.c18 import MAGIC, hdr, cert_rec, pub_rec, sig_rec
+    exe, env, work, seed, n, w = job
+    rng = random.Random(seed)
+    state = {}
+
+    def responder(sess, kind, info):
+        if kind == 'http' and 'publications' in info.get('url', ''):
+            return 'resp 200 0 %s -' % kexec.hx(state['pf'])
+        if kind == 'http':
+            return 'resp 0 7 - -'
+        return 'eof'
+    sess = net.Session(exe, env, work, responder)
+    c = sess.cmd
+    for i in range(n):
+        data = gen.rnd_bytes(rng, rng.choice([1, 1, 2, 7, 32, 64, 200]))
+        cc0 = rng.choice([0, 0, 1, 3, 17])
+        s = gen.gen_signature(rng, first_corr=cc0, doc_data=data, time=c04.T0, with_cal=True, anchor='none', rfc=(rng.random() < 0.15), pub_time=c04.T0 + rng.choice([1, 3600, 86400 * 15]), calendar=w.cal,
+                              nchains=rng.choice([1, 2]))
+        s.calauth = None
+        s.pub = R.pub_record(s.cal.pub_time, s.cal.root())
+        doc = s.rfc.input_hash if s.rfc is not None else s.doc
+        cc = s.chains[0].links[0].corr or 0
+        recs = [hdr(), cert_rec(w.cert_ok), pub_rec(s.cal.pub_time, s.cal.root())]
+        body = MAGIC + b''.join(x.enc() for x in recs)
+        state['pf'] = body + sig_rec(w.pf_signer.pkcs7_detached(body, work)).enc()
+        c('ctx 0')
+        c('clock 1700000000')
+        c('truststore 0 ' + w.ca.pem)
+        c('constraints 0 %s=publications@guardtime.test' % c04.EMAIL_OID)
+        c('set_puburl 0 http://pub.example/publications.bin')
+        raw = s.enc().hex()
+        q = c('sigparse 0 0 empty ' + raw)
+        if q.rc != 0:
+            r.viol('parse-empty:honest-rejected', 'honest signature rejected rc=%d' % q.rc, raw)
+            c('ctxfree 0')
+            continue
+        base = c('verify 0 0 general')
+        if base.rc != 0 or base.get('res') != '0':
+            r.count('wrappers_baseline_not_ok')
+            c('sigfree 0')
+            c('ctxfree 0')
+            continue
+        r.count('wrappers_baseline_ok')
+        setup = 'ctx with downloadable publications file; sigparse 0 0 empty %s\n' % raw
+        for hname, h in hash_variants(rng, doc, False):
+            q = c('verify 0 0 general doc=%s api=datahash' % h.hex())
+            if q.get('stage') == 'dochash':
+                continue
+            r.observe(('wrapper-datahash', hname, q.rc))
+            if (h == doc) != (q.rc == 0) or (h != doc and q.rc != VERIFICATION_FAILURE):
+                r.viol('wrappers:verifyDataHash:%s:rc=%#x' % (hname, q.rc), 'KSI_verifyDataHash (general policy OK for the signature itself) with hash variant %s: rc=%#x' % (hname, q.rc), setup + 'verify 0 0 general doc=%s api=datahash' % h.hex())
+            for pol in ('general', 'pubfile'):
+                L = rng.choice([0, cc, cc + 1, 255, 256])
+                q = c('verify 0 0 %s doc=%s lvl=%d api=withpolicy' % (pol, h.hex(), L))
+                good = h == doc and L <= cc and not (L > 0 and s.rfc is not None)
+                r.observe(('wrapper-withpolicy', pol, hname, L <= cc, q.rc))
+                if good != (q.rc == 0):
+                    r.viol('wrappers:verifyWithPolicy:%s:%s:%s:rc=%#x' % (pol, hname, 'L<=c' if L <= cc else 'L>c', q.rc), 'KSI_Signature_verifyWithPolicy(%s, no context) hash variant %s level %d (first correction %d): rc=%#x' % (pol, hname, L, cc, q.rc),
+                           setup + 'verify 0 0 %s doc=%s lvl=%d api=withpolicy' % (pol, h.hex(), L))
+        if s.rfc is None:
+            for dname, d in (('same', data), ('flipped', gen._flip(data, rng)), ('appended', data + b'\x00'), ('shortened', data[:-1]), ('empty', b''), ('one', b'x')):
+                q = c('verify 0 0 general api=document data=%s' % kexec.hx(d))
+                r.observe(('wrapper-document', dname, q.rc))
+                r.count('wrappers_document_%s_%s' % ('same' if d == data else 'other', 'ok' if q.rc == 0 else 'refused'))
+                if (d == data) != (q.rc == 0) or (d != data and q.rc != VERIFICATION_FAILURE):
+                    r.viol('wrappers:verifyDocument:%s:rc=%#x' % (dname if d != data else 'same', q.rc), 'KSI_Signature_verifyDocument (general policy OK for the signature itself) with document variant %s (%d bytes; signed document %d bytes): rc=%#x' % (dname, len(d), len(data), q.rc),
+                           setup + 'verify 0 0 general api=document data=%s' % kexec.hx(d))
+        c('sigfree 0')
+        c('ctxfree 0')
+    pool.check_exit(None, r, sess.ex)
+
+
+def dispatch(job, r):
+    if job[0] == 'wrappers':
+        return wrappers_part(job[1:], r)
+    return worker(job, r)
+
+
 def run(ctx):
     exe = kexec.build(ctx)
     nsig = 40 if ctx.tier == 'quick' else 600
@@ -160,8 +244,11 @@ def run(ctx):
                 'verifyWithPolicy with/without context, verifyDataHash, verifyDocument}; distinct = (policy, hash variant, level class, outcome)')
     ctx.assumptions = ['reference generator vlib/gen.py', 'anchors for key/calendar/publications-file policies are absent here (baseline NA); the mismatch verdicts do not depend on them',
                        'ASan+UBSan build']
-    pool.run(ctx, worker, [(exe, ctx.env(), ctx.work, ctx.seed * 100 + i, nsig) for i in range(16)])
+    from checks import c04
+    w = c04.World(os.path.join(ctx.work, 'pki'))
+    pool.run(ctx, dispatch, [(exe, ctx.env(), ctx.work, ctx.seed * 100 + i, nsig) for i in range(16)] + [('wrappers', exe, ctx.env(), ctx.work, ctx.seed * 100 + 50 + i, max(6, nsig // 4), w) for i in range(4)])
     c = ctx.counters
     if not ctx.violations and not ctx.known_printed:
         ctx.require(c.get('outcome_FAIL/GEN-01', 0) > 100 and c.get('outcome_FAIL/GEN-03', 0) > 20 and c.get('outcome_FAIL/GEN-04', 0) > 20, 'GEN-01/03/04 observed')
+        ctx.require(c.get('wrappers_baseline_ok', 0) >= 20 and c.get('wrappers_document_same_ok', 0) >= 10 and c.get('wrappers_document_other_refused', 0) >= 50, 'convenience entry points observed with a positive baseline')
         ctx.require(c.get('baseline_userpub_OK', 0) > 5 and c.get('baseline_internal_OK', 0) > 50, 'OK baselines observed')
